@@ -162,6 +162,7 @@ func cmdCheck(args []string) {
 	var reports []oblReport
 	var undecided []string
 	undecFn := map[string]string{} // undecided reason -> function it concerns ("" = not tied to one)
+	lemmaBlocked := map[string]string{} // lemma file -> function whose contract stopped it
 	var funcs []map[string]interface{}
 	trusted := map[string]bool{}
 	abstracted := map[string]bool{}
@@ -206,7 +207,17 @@ func cmdCheck(args []string) {
 	for _, ln := range cfg.Lemmas {
 		lres, err := eng.RunLemmaFile(filepath.Join(*verif, "lemmas", ln+".lemma"), *prop)
 		if err != nil {
-			undecided = append(undecided, "lemma "+ln+": "+err.Error())
+			u := "lemma " + ln + ": " + err.Error()
+			undecided = append(undecided, u)
+			// a lemma that cannot be run because the contract of a function it calls no longer fits that
+			// function: attributed to the function (its fallback decides)
+			if i := strings.Index(err.Error(), "call "); i >= 0 {
+				rest := err.Error()[i+5:]
+				if j := strings.Index(rest, ": "); j > 0 {
+					undecFn[u] = rest[:j]
+					lemmaBlocked[ln] = rest[:j]
+				}
+			}
 			continue
 		}
 		obls := groupQueries(lres.Queries)
@@ -259,6 +270,13 @@ func cmdCheck(args []string) {
 			undecided = append(undecided, u)
 			if i := strings.LastIndex(c, "/"); i > 0 && !strings.HasPrefix(c, "lemma.") && !strings.HasPrefix(c, "frame.") {
 				undecFn[u] = c[:i]
+			}
+			if strings.HasPrefix(c, "lemma.") {
+				for ln, fn := range lemmaBlocked {
+					if strings.HasPrefix(c, "lemma."+ln+".") {
+						undecFn[u] = fn
+					}
+				}
 			}
 		}
 	}
@@ -661,5 +679,7 @@ func runReplay(verif, repo string, rp ReplaySpec) (string, bool) {
 	cmd := exec.Command(args[0], args[1:]...)
 	out, err := cmd.CombinedOutput()
 	// a test that ran and failed; a build failure of the injected test is not a failing run
-	return string(out), err != nil && strings.Contains(string(out), "--- FAIL")
+	o := string(out)
+	crashed := strings.Contains(o, "FAIL\t") && (strings.Contains(o, "panic:") || strings.Contains(o, "fatal error:")) && !strings.Contains(o, "[build failed]") && !strings.Contains(o, "[setup failed]")
+	return o, err != nil && (strings.Contains(o, "--- FAIL") || crashed)
 }
